@@ -206,7 +206,7 @@ qbetype(struct type *t)
 	case 2: return t->u.basic.issigned ? sh : uh;
 	case 4: return t->prop & PROPFLOAT ? s : w;
 	case 8: return t->prop & PROPFLOAT ? d : l;
-	case 16: fatal("long double is not yet supported");
+	case 16: error(&tok.loc, "long double is not yet supported");
 	}
 	assert(0);
 }
